@@ -52,6 +52,9 @@ inductive Src | lst (lid : Lid) | cli (sid : Sid)
 /-- largest UDP payload over IPv4 (65535 − 20 − 8); a kernel fact, not a constant of the repository -/
 def maxDatagram : Nat := 65507
 
+/-- largest UDP payload a socket of the given family accepts: IPv6 does not count its own header (65535 − 8) -/
+def maxDatagramFor (v6 : Bool) : Nat := if v6 then 65527 else maxDatagram
+
 /-- the part of `TransportConfig` the UDP engine consults, plus the two translated facts about the source (`Gen/Udp.lean`) -/
 structure Cfg where
   ioReadChunk : Nat := Gen.Udp.ioReadChunk
@@ -66,6 +69,12 @@ structure Cfg where
   /-- the same fact for the erase in `shutdownDrain` (either form empties the index there: `Lemmas` prove it) -/
   drainGuarded : Bool := Gen.Udp.shutdownDrainEraseGuarded
   clientOverflowStrict : Bool := Gen.Udp.clientOverflowStrict
+  /-- translated facts about the epoll interest masks: does `addEpoll` in `addListenerDo`/`connectDo` arm `EPOLLIN`, does the mask
+  rebuilt by `updateListener`/`updateClient` keep it -/
+  listenerAddIn : Bool := Gen.Udp.listenerAddArmsIn
+  listenerUpdIn : Bool := Gen.Udp.listenerUpdateKeepsIn
+  clientAddIn : Bool := Gen.Udp.clientAddArmsIn
+  clientUpdIn : Bool := Gen.Udp.clientUpdateKeepsIn
   listenerOverflowStrict : Bool := Gen.Udp.listenerOverflowStrict
 
 /-- queued datagram: `OutDg{to, payload}` (listener queue) or `ByteBuffer` (client queue; `dest` = the connected peer).
@@ -86,12 +95,20 @@ structure Sess where
   created : Nat := 0
   lastActivity : Nat := 0
   lastWriteProgress : Nat := 0
+  /-- the interest mask last handed to epoll for the session's own socket (client sessions only): `EPOLLIN` / `EPOLLOUT` armed -/
+  armIn : Bool := false
+  armOut : Bool := false
+  /-- address family of the session's own socket (client sessions) -/
+  v6 : Bool := false
   deriving Repr
 
-/-- `struct Listener` -/
+/-- `struct Listener` (+ the address family of its socket and the interest mask last handed to epoll for it) -/
 structure Lst where
   wq : List Item := []
   wantWrite : Bool := false
+  v6 : Bool := false
+  armIn : Bool := false
+  armOut : Bool := false
   deriving Repr
 
 /-- finite map as a function; `upd m k v` sets (`some`) or erases (`none`) key `k` -/
@@ -106,23 +123,23 @@ structure State where
   sessions : Sid → Option Sess := fun _ => none
   listeners : Lid → Option Lst := fun _ => none
   peerIndex : Addr → Option Sid := fun _ => none
-  nextSid : Nat := 1
-  nextLid : Nat := 1
+  nextSid : Nat := Gen.Udp.nextSessionIdInit
+  nextLid : Nat := Gen.Udp.nextListenerIdInit
   sessionsCurrent : Nat := 0
   /-- `MonoClock::now()` in ms; moves only by `advance` -/
   now : Nat := 0
 
 inductive In
-  /-- `addListenerDo` succeeded: a new bound listener socket -/
-  | listen
+  /-- `addListenerDo` succeeded: a new bound listener socket (IPv6 or IPv4) -/
+  | listen (v6 : Bool)
   /-- `EPOLLIN` on listener `lid`: the `recvfrom` loop returns these datagrams (source, bytes) in this order, then `EAGAIN` -/
   | recvFrom (lid : Lid) (dgs : List (Addr × Bytes))
   /-- `EPOLLIN` on the socket of client session `sid`: the `recv` loop returns these datagrams, then `EAGAIN` -/
   | clientRecv (sid : Sid) (dgs : List Bytes)
-  /-- `connect()` + `connectDo`: a connected client socket to `addr` -/
-  | connect (addr : Addr)
-  /-- `connectViaListener()` + `viaDo` -/
-  | via (lid : Lid) (addr : Addr)
+  /-- `connect()` + `connectDo`: a connected client socket to `addr` (`v6` = the family `addr` resolves to) -/
+  | connect (addr : Addr) (v6 : Bool)
+  /-- `connectViaListener()` + `viaDo`; `v6` = the address family the target resolves to -/
+  | via (lid : Lid) (addr : Addr) (v6 : Bool)
   /-- `send()` accepted + `sendDo`; `ans` = what the kernel answers to the ONE `send`/`sendto` it makes -/
   | cmdSend (sid : Sid) (p : Bytes) (ans : Ans)
   /-- `EPOLLOUT` on listener `lid`; `answers` = kernel answers to the successive `sendto` calls of `flushListener` -/
@@ -152,14 +169,30 @@ inductive Out
   | nullDeref
   deriving DecidableEq, Repr
 
-/-- the kernel refuses a datagram above the IPv4 maximum whatever else happens -/
-def kernelAns (p : Bytes) (a : Ans) : Ans := if p.length > maxDatagram then .err else a
+/-- the kernel refuses a datagram above the maximum of the socket's family (EMSGSIZE) whatever else happens -/
+def kernelAns (v6 : Bool) (p : Bytes) (a : Ans) : Ans := if p.length > maxDatagramFor v6 then .err else a
 
 /-- `wq.size() > maxWriteQueue` (or `>=` if the source says so), tested after the push -/
 def over (strict : Bool) (len cap : Nat) : Bool := if strict then decide (len > cap) else decide (len ≥ cap)
 
 /-- `maxSessions && sessionsCurrent >= maxSessions` -/
 def capReached (cfg : Cfg) (st : State) : Bool := cfg.maxSessions != 0 && decide (st.sessionsCurrent ≥ cfg.maxSessions)
+
+/-- mirrors udp_engine.hpp::updateListener: the mask is rebuilt from scratch — `EPOLLIN` (if the source says so) and `EPOLLOUT`
+exactly when `wantWrite && !wq.empty()` -/
+def updL (cfg : Cfg) (l : Lst) : Lst := { l with armIn := cfg.listenerUpdIn, armOut := l.wantWrite && !l.wq.isEmpty }
+
+/-- mirrors udp_engine.hpp::updateClient -/
+def updC (cfg : Cfg) (s : Sess) : Sess := { s with armIn := cfg.clientUpdIn, armOut := s.wantWrite && !s.wq.isEmpty }
+
+@[simp] theorem updC_role (cfg : Cfg) (s : Sess) : (updC cfg s).role = s.role := rfl
+@[simp] theorem updC_peer (cfg : Cfg) (s : Sess) : (updC cfg s).peer = s.peer := rfl
+@[simp] theorem updC_owner (cfg : Cfg) (s : Sess) : (updC cfg s).owner = s.owner := rfl
+@[simp] theorem updC_wq (cfg : Cfg) (s : Sess) : (updC cfg s).wq = s.wq := rfl
+@[simp] theorem updC_wantWrite (cfg : Cfg) (s : Sess) : (updC cfg s).wantWrite = s.wantWrite := rfl
+@[simp] theorem updL_wq (cfg : Cfg) (l : Lst) : (updL cfg l).wq = l.wq := rfl
+@[simp] theorem updL_wantWrite (cfg : Cfg) (l : Lst) : (updL cfg l).wantWrite = l.wantWrite := rfl
+@[simp] theorem updL_v6 (cfg : Cfg) (l : Lst) : (updL cfg l).v6 = l.v6 := rfl
 
 /-- mirrors udp_engine.hpp::closeNow (callers have looked the session up; `closed` sessions never stay in the table) -/
 def closeNow (cfg : Cfg) (st : State) (sid : Sid) (why : Why) : State × List Out :=
@@ -221,20 +254,22 @@ def clientRecvMany (cfg : Cfg) (sid : Sid) : State → List Bytes → State × L
       (r2.1, .data sid got :: r2.2)
 
 /-- mirrors udp_engine.hpp::connectDo (resolution and `::connect` succeed) -/
-def connectDo (_cfg : Cfg) (st : State) (addr : Addr) : State × List Out :=
+def connectDo (cfg : Cfg) (st : State) (addr : Addr) (v6 : Bool) : State × List Out :=
   let sid := st.nextSid
-  let s : Sess := { role := .client, peer := addr, created := st.now, lastActivity := st.now, lastWriteProgress := st.now }
+  let s : Sess := { role := .client, peer := addr, created := st.now, lastActivity := st.now, lastWriteProgress := st.now,
+                    armIn := cfg.clientAddIn, v6 := v6 }
   ({ st with sessions := upd st.sessions sid (some s), nextSid := sid + 1, sessionsCurrent := st.sessionsCurrent + 1 },
    [.connected sid addr])
 
 /-- mirrors udp_engine.hpp::viaDo -/
-def viaDo (cfg : Cfg) (st : State) (lid : Lid) (addr : Addr) : State × List Out :=
+def viaDo (cfg : Cfg) (st : State) (lid : Lid) (addr : Addr) (v6 : Bool) : State × List Out :=
   let sid := st.nextSid
   let st0 := { st with nextSid := sid + 1 }    -- connectViaListener() has already handed the id out
   match st.listeners lid with
   | none => (st0, [.closed sid .config])
-  | some _ =>
-    if capReached cfg st then (st0, [.closed sid .config])
+  | some l =>
+    if l.v6 != v6 then (st0, [.closed sid .config])        -- "AF mismatch": no address of the listener's family
+    else if capReached cfg st then (st0, [.closed sid .config])
     else
       let s : Sess := { role := .serverPeer, peer := addr, owner := lid, created := st.now, lastActivity := st.now,
                         lastWriteProgress := st.now }
@@ -249,11 +284,10 @@ def sendDo (cfg : Cfg) (tok : Nat) (st : State) (sid : Sid) (p : Bytes) (ans0 : 
   match st.sessions sid with
   | none => (st, [])
   | some s =>
-    let ans := kernelAns p ans0
     let it : Item := { tok := tok, dest := s.peer, payload := p }
     match s.role with
     | .client =>
-      match ans with
+      match kernelAns s.v6 p ans0 with
       | .ok =>
         ({ st with sessions := upd st.sessions sid (some { s with lastActivity := st.now, lastWriteProgress := st.now }) },
          [.sent (.cli sid) s.peer p tok])
@@ -261,14 +295,14 @@ def sendDo (cfg : Cfg) (tok : Nat) (st : State) (sid : Sid) (p : Bytes) (ans0 : 
         let wq' := s.wq ++ [it]
         if over cfg.clientOverflowStrict wq'.length cfg.maxWriteQueue then
           if cfg.closeOnBackpressure then closeNow cfg st sid .backpressure
-          else ({ st with sessions := upd st.sessions sid (some { s with wq := wq'.tail, wantWrite := true }) }, [])
-        else ({ st with sessions := upd st.sessions sid (some { s with wq := wq', wantWrite := true }) }, [])
+          else ({ st with sessions := upd st.sessions sid (some (updC cfg { s with wq := wq'.tail, wantWrite := true })) }, [])
+        else ({ st with sessions := upd st.sessions sid (some (updC cfg { s with wq := wq', wantWrite := true })) }, [])
       | .err => closeNow cfg st sid .socket
     | .serverPeer =>
       match st.listeners s.owner with
       | none => closeNow cfg st sid .unknown
       | some l =>
-        match ans with
+        match kernelAns l.v6 p ans0 with
         | .ok =>
           ({ st with sessions := upd st.sessions sid (some { s with lastActivity := st.now, lastWriteProgress := st.now }) },
            [.sent (.lst s.owner) s.peer p tok])
@@ -277,9 +311,9 @@ def sendDo (cfg : Cfg) (tok : Nat) (st : State) (sid : Sid) (p : Bytes) (ans0 : 
           if over cfg.listenerOverflowStrict wq'.length cfg.maxWriteQueue then
             if cfg.closeOnBackpressure then
               -- the datagram STAYS in the listener queue; the session is closed
-              closeNow cfg { st with listeners := upd st.listeners s.owner (some { wq := wq', wantWrite := true }) } sid .backpressure
-            else ({ st with listeners := upd st.listeners s.owner (some { wq := wq'.tail, wantWrite := true }) }, [])
-          else ({ st with listeners := upd st.listeners s.owner (some { wq := wq', wantWrite := true }) }, [])
+              closeNow cfg { st with listeners := upd st.listeners s.owner (some (updL cfg { l with wq := wq', wantWrite := true })) } sid .backpressure
+            else ({ st with listeners := upd st.listeners s.owner (some (updL cfg { l with wq := wq'.tail, wantWrite := true })) }, [])
+          else ({ st with listeners := upd st.listeners s.owner (some (updL cfg { l with wq := wq', wantWrite := true })) }, [])
         | .err => closeNow cfg st sid .socket
 
 /-- next scripted kernel answer (an exhausted script answers `ok`) -/
@@ -288,34 +322,34 @@ def nextAns : List Ans → Ans × List Ans
   | a :: as => (a, as)
 
 /-- mirrors udp_engine.hpp::flushListener — the `while (!wq.empty())` loop: (what stays queued, what happened) -/
-def flushLoopL (lid : Lid) : List Item → List Ans → List Item × List Out
+def flushLoopL (lid : Lid) (v6 : Bool) : List Item → List Ans → List Item × List Out
   | [], _ => ([], [])
   | it :: rest, as =>
-    match kernelAns it.payload (nextAns as).1 with
-    | .ok => let r := flushLoopL lid rest (nextAns as).2; (r.1, .sent (.lst lid) it.dest it.payload it.tok :: r.2)
+    match kernelAns v6 it.payload (nextAns as).1 with
+    | .ok => let r := flushLoopL lid v6 rest (nextAns as).2; (r.1, .sent (.lst lid) it.dest it.payload it.tok :: r.2)
     | .eagain => (it :: rest, [])
-    | .err => let r := flushLoopL lid rest (nextAns as).2; (r.1, .error :: r.2)   -- dropped, loop goes on
+    | .err => let r := flushLoopL lid v6 rest (nextAns as).2; (r.1, .error :: r.2)   -- dropped, loop goes on
 
-/-- mirrors udp_engine.hpp::flushListener; delivered only while `EPOLLOUT` is armed (`wantWrite && !wq.empty()`, updateListener) -/
-def flushListener (st : State) (lid : Lid) (answers : List Ans) : State × List Out :=
+/-- mirrors udp_engine.hpp::flushListener; the kernel reports `EPOLLOUT` only while it is in the interest mask (`armOut`) -/
+def flushListener (cfg : Cfg) (st : State) (lid : Lid) (answers : List Ans) : State × List Out :=
   match st.listeners lid with
   | none => (st, [])
   | some l =>
-    if l.wantWrite && !l.wq.isEmpty then
-      let r := flushLoopL lid l.wq answers
-      ({ st with listeners := upd st.listeners lid (some { wq := r.1, wantWrite := !r.1.isEmpty }) }, r.2)
+    if l.armOut then
+      let r := flushLoopL lid l.v6 l.wq answers
+      ({ st with listeners := upd st.listeners lid (some (updL cfg { l with wq := r.1, wantWrite := !r.1.isEmpty })) }, r.2)
     else (st, [])
 
 /-- mirrors udp_engine.hpp::writeClient — the loop: (what stays queued, datagrams sent, `true` if a hard error ended it) -/
-def flushLoopC (sid : Sid) : List Item → List Ans → List Item × List Out × Bool
+def flushLoopC (sid : Sid) (v6 : Bool) : List Item → List Ans → List Item × List Out × Bool
   | [], _ => ([], [], false)
   | it :: rest, as =>
-    match kernelAns it.payload (nextAns as).1 with
-    | .ok => let r := flushLoopC sid rest (nextAns as).2; (r.1, .sent (.cli sid) it.dest it.payload it.tok :: r.2.1, r.2.2)
+    match kernelAns v6 it.payload (nextAns as).1 with
+    | .ok => let r := flushLoopC sid v6 rest (nextAns as).2; (r.1, .sent (.cli sid) it.dest it.payload it.tok :: r.2.1, r.2.2)
     | .eagain => (it :: rest, [], false)
     | .err => (it :: rest, [], true)
 
-/-- mirrors udp_engine.hpp::writeClient (EPOLLOUT on a client socket, armed by updateClient) -/
+/-- mirrors udp_engine.hpp::writeClient (`EPOLLOUT` on a client socket, reported only while armed by updateClient) -/
 def writeClient (cfg : Cfg) (st : State) (sid : Sid) (answers : List Ans) : State × List Out :=
   match st.sessions sid with
   | none => (st, [])
@@ -323,10 +357,10 @@ def writeClient (cfg : Cfg) (st : State) (sid : Sid) (answers : List Ans) : Stat
     match s.role with
     | .serverPeer => (st, [])
     | .client =>
-      if s.wantWrite && !s.wq.isEmpty then
-        let r := flushLoopC sid s.wq answers
+      if s.armOut then
+        let r := flushLoopC sid s.v6 s.wq answers
         let lwp := if r.2.1.isEmpty then s.lastWriteProgress else st.now
-        let s1 : Sess := { s with wq := r.1, wantWrite := !r.1.isEmpty, lastWriteProgress := lwp }
+        let s1 : Sess := updC cfg { s with wq := r.1, wantWrite := !r.1.isEmpty, lastWriteProgress := lwp }
         let st1 := { st with sessions := upd st.sessions sid (some s1) }
         if r.2.2 then
           let c := closeNow cfg st1 sid .socket
@@ -386,28 +420,35 @@ def shutdownDrain (cfg : Cfg) (st : State) : State × List Out :=
 
 /-- one event of the I/O thread; `tok` (ghost) = the position of this input in the history -/
 def step (cfg : Cfg) (tok : Nat) (st : State) : In → State × List Out
-  | .listen =>
-    ({ st with listeners := upd st.listeners st.nextLid (some ({} : Lst)), nextLid := st.nextLid + 1 }, [])
+  | .listen v6 =>
+    ({ st with listeners := upd st.listeners st.nextLid (some ({ v6 := v6, armIn := cfg.listenerAddIn } : Lst)),
+               nextLid := st.nextLid + 1 }, [])
   | .recvFrom lid dgs =>
     match st.listeners lid with
     | none => (st, [])
-    | some _ => recvMany cfg lid st dgs
+    | some l => if l.armIn then recvMany cfg lid st dgs else (st, [])     -- not armed: the datagrams stay in the kernel, unseen
   | .clientRecv sid dgs =>
     match st.sessions sid with
     | none => (st, [])
     | some s =>
       match s.role with
       | .serverPeer => (st, [])
-      | .client => clientRecvMany cfg sid st dgs
-  | .connect addr => connectDo cfg st addr
-  | .via lid addr => viaDo cfg st lid addr
+      | .client => if s.armIn then clientRecvMany cfg sid st dgs else (st, [])
+  | .connect addr v6 => connectDo cfg st addr v6
+  | .via lid addr v6 => viaDo cfg st lid addr v6
   | .cmdSend sid p ans => if p = [] then (st, []) else sendDo cfg tok st sid p ans     -- `send()` with n == 0 queues nothing
-  | .writableL lid answers => flushListener st lid answers
+  | .writableL lid answers => flushListener cfg st lid answers
   | .writableC sid answers => writeClient cfg st sid answers
   | .close sid => closeNow cfg st sid .unknown
   | .advance ms => ({ st with now := st.now + ms }, [])
   | .gc => runGc cfg st
   | .restart => shutdownDrain cfg st
+
+/-- the order in which one `epoll_wait` batch is handled: `loopUnbatched` takes the events as they come; `loopBatched`
+(EventBatchProcessor::processBatch) handles the special descriptors (command eventfd, GC timer) first, in place, and every socket
+event afterwards -/
+def batchOrder {α : Type} (special : α → Bool) (batched : Bool) (evs : List α) : List α :=
+  if batched then evs.filter special ++ evs.filter (fun e => !special e) else evs
 
 /-- run a history from a state, the first input being number `n`; returns the final state and everything that happened -/
 def runFrom (cfg : Cfg) : Nat → State → List In → State × List Out
